@@ -63,9 +63,9 @@ CLAIMED = {
             "Proof: for every SPS value within the standard's ranges (wf_sps: all 13 chroma-info profiles, chroma formats, bit depths, 8/12 scaling lists given by their delta_scale values with wrap-around / early termination / use-default, POC types with <= 255 offsets, frame/field/MBAFF, cropping, every VUI/HRD sub-structure, 32-bit Exp-Golomb values) parsing enc_sps(x) ++ trailing bits returns exactly x (derived scaling lists included), and succeeds iff what follows the structure is 1 0^k; the model's chroma-info profile list equals the implementation's (dumped table). Converse proved in part (C04_converse_partial: every accepted input is consumed front to back into a value satisfying inv_sps); the bit-exact re-encoding of accepted inputs is checked by correspondence + generator only. Tied to SeqParameterSet::from_bits on >40k generated cases per run (full Debug rendering + derived values).",
             "Trusted: Coq kernel; Spec/SyntaxSps.v is a hand transcription of 7.3.2.1.1, 7.3.2.1.1.1, E.1.1, E.1.2.",
             "DESIGN.md 5 C04"),
-    "C02": ("Coq proof of the specification law unescape(escape p) = p and of escape's start-code freedom; the streaming refinement is decided by exhaustive small-scope differential execution against the Coq model and an independent reference unescape",
-            "Partial proof: Spec/Escape.v states 7.4.1 as functions of the whole byte string; unescape (escape p) = Some p and the refusal of 00 00 00 / 00 00 03 xx(>03) are theorems. The refinement of the chunked, windowed ByteReader model (any chunking, read/fill_buf/consume interleaving, skip, window size; one-shot decoder and its Cow variant) to unescape is NOT yet a theorem: it is checked on every run by exhaustive execution (all strings <= 6 over {00,01,03,04} x all partitions x 4 read styles x skips 0..2 x hook windows 1..4; escapes and forbidden sequences around offsets 125..131 / 253..259 of 120..4000-byte chunks; random escaped payloads), model = implementation on every operation result, implementation = reference unescape on drains and decode_nal.",
-            "Trusted: Coq kernel for the stated theorems; for the refinement the generator bounds detection (D1-type defects need chunks > 128 bytes: covered by the window cases and the corpus).",
+    "C02": ("Coq refinement proof: the chunked, windowed ByteReader model (fill_buf / consume / read histories, header skip, drain loop) and decode_nal (with its Cow variant) equal the specification function unescape for every input, chunking, window and history; unescape(escape p) = p; model tied to src/rbsp.rs by exhaustive small-scope differential execution plus an independent reference unescape",
+            "Proof: Spec/Escape.v states 7.4.1 on whole byte strings. Theorems (Props/C02.v): unescape (escape p) = Some p; refusal of 00 00 00 and 00 00 03 xx(>03); C02_stream_history - for every chunking of the underlying reader (all chunks non-empty), every examination window >= 1, every header skip within the input and every sequence of fill_buf / consume(k) / read(n) calls, the bytes handed over are a prefix of unescape(payload), WouldBlock occurs only on an incomplete NAL after everything was delivered, InvalidData only when the payload is not clean and then everything delivered comes from a clean prefix, and the model never panics or runs out of fuel; C02_stream_drain - reading to the end yields exactly unescape(payload); C02_paths_agree - any two chunkings/windows of the same bytes give the same RBSP; C02_decode_nal - decode_nal nal = unescape(tl nal), Borrowed exactly when the output has the input's length, which (C02_borrow_iff_unchanged) is exactly when it equals the input. Proof route: scanner automaton uout = unescape (RbspSem), scan loop lemma (RbspScan), invariant + meaning preserved by try_fill_buf_slow/fill loop/fill_buf/consume/read with a termination measure (RbspReader), histories/drain/decode_nal (RbspStream). Correspondence on every run: all strings <= 6 over {00,01,03,04} x all partitions x 4 read styles x skips 0..2 x hook windows 1..4; escapes and forbidden sequences around offsets 125..131 / 253..259 of 120..4000-byte chunks; random escaped payloads; model = implementation on every operation result, implementation = reference unescape on drains and decode_nal.",
+            "Trusted: Coq kernel; the correspondence run ties Model/Rbsp.v to src/rbsp.rs (generator bounds detection of model/code divergence: chunks > 128 bytes are covered by the window cases and the corpus); decode_nal theorem assumes the slice length fits usize.",
             "DESIGN.md 5 C02"),
     "C05": ("Coq weakest-precondition proof for accepted PPS (ranges, context reference, slice-group shapes, scaling-list counts) + exact tail detection lemma; forward round trip by differential execution on generated conforming PPS",
             "Partial proof: every accepted PPS (any input, any context of accepted SPS incl. 2^32-macroblock sizes) satisfies inv_pps - ids in range, referenced SPS in the context, map type 0 with 2..8 run lengths, type 2 with n rectangles (top_left <= bottom_right), type 6 ids < 8, ref counts <= 32, offsets in range, 6+(2|6) picture scaling lists - consumes its input front to back and never aborts; the optional tail is detected exactly when data precedes the trailing bits. The forward round trip against a spec encoder of 7.3.2.2 is not yet a theorem; it is checked by correspondence (all 7 map types x 2..8 groups x tail on/off x list shapes x SPS variants, boundary values, malformed variants).",
